@@ -145,6 +145,37 @@ Theorem no_paste_no_change : forall old l, forallb (fun t => negb (is_rdblno t) 
 Proof. exact do_concat_no_paste. Qed.
 Print Assumptions paste_leaves_no_operator.
 
+(* start-of-line state (C11 6.10p2) after a function-like macro name that is not invoked: try_param_macro_call skips white
+   space and end-of-replacement markers looking for `(`; the last skipped white-space token goes back to the input, so a
+   new-line is seen by the main loop (newln_p) and a following `#` starts a directive -- for every such run *)
+Theorem directive_after_uninvoked_name : forall q d s name m ps rest r cs ig fuel,
+  inp s = TIdent false name :: rest ->
+  d name = Some m -> m_params m = Some ps -> ignored (ign s) name = false ->
+  skip_to_paren rest (calls s) (ign s) None = Some (TTok KPunct [sharp] :: r, cs, ig, Some TNl) ->
+  run q d (3 + fuel) s = Err 1.
+Proof. exact directive_after_uninvoked_name_l. Qed.
+Print Assumptions directive_after_uninvoked_name.
+(* ... while on the same line (last skipped white space a space, or none) the `#` is an ordinary token *)
+Theorem no_directive_after_uninvoked_name_on_the_same_line : forall q d s name m ps rest r cs ig ws,
+  inp s = TIdent false name :: rest ->
+  d name = Some m -> m_params m = Some ps -> ignored (ign s) name = false ->
+  skip_to_paren rest (calls s) (ign s) None = Some (TTok KPunct [sharp] :: r, cs, ig, ws) ->
+  ws <> Some TNl ->
+  exists k o, (forall fuel, run q d (k + fuel) s = run q d fuel (mkst r (TTok KPunct [sharp] :: o) cs ig false))
+              /\ (o = TIdent false name :: out s \/ o = TSp :: TIdent false name :: out s).
+Proof. exact no_directive_after_uninvoked_name_on_the_same_line_l. Qed.
+Print Assumptions no_directive_after_uninvoked_name_on_the_same_line.
+(* the new-line goes to the output after the name and leaves the loop at the start of a line, whatever follows *)
+Theorem uninvoked_name_keeps_the_newline : forall q d s name m ps rest i cs ig,
+  inp s = TIdent false name :: rest ->
+  d name = Some m -> m_params m = Some ps -> ignored (ign s) name = false ->
+  skip_to_paren rest (calls s) (ign s) None = Some (i, cs, ig, Some TNl) ->
+  starts_with lparen i = false ->
+  exists s1 s2, step q d s = Next s1 /\ step q d s1 = Next s2 /\
+                inp s2 = i /\ out s2 = TNl :: TIdent false name :: out s /\ nl s2 = true /\ calls s2 = cs /\ ign s2 = ig.
+Proof. exact uninvoked_name_keeps_the_newline_l. Qed.
+Print Assumptions uninvoked_name_keeps_the_newline.
+
 (* the behaviours repaired by fixes/C09-6, C09-7 and C09-8, as quirks of the model: witnesses *)
 Definition d67 : defs := lookup
   [ (sp "F", mkmacro (Some [sp "x"]) [TTok KPunct (sp "["); TIdent false (sp "x"); TTok KPunct (sp "]")]);
